@@ -529,6 +529,7 @@ class StateMachine(object):  # pylint: disable=too-many-public-methods
 
     def aa_7(self):
         """Send A-ABORT PDU."""
+        self.primitive = pdu.AAbortPDU(source=2, reason_diag=0)
         self.dul_socket.sendall(self.primitive.encode())
         return States.STA_13
 
